@@ -125,6 +125,7 @@ type harnessRun struct {
 	maxQueryMs  int64
 	modelHits   int
 	fallbacks   int
+	reinits     int
 	reached     map[string]int
 	findings    []exec.Finding
 	unsupported map[string]int
@@ -290,6 +291,7 @@ func (r *harnessRun) absorb(res exec.JobResult) {
 	r.solverMs += res.SolverMs
 	r.modelHits += res.ModelHits
 	r.fallbacks += res.Fallbacks
+	r.reinits += res.Reinits
 	if res.MaxQueryMs > r.maxQueryMs {
 		r.maxQueryMs = res.MaxQueryMs
 	}
